@@ -210,6 +210,27 @@ _OPS = {
     '+': lambda a, b: a + b, '-': lambda a, b: a - b, '*': lambda a, b: a * b,
 }
 
+# Optional abstraction of NONLINEAR real arithmetic (used by inductive contracts whose VCs mix quantifiers with
+# products): x*y and x/y with two symbolic operands become applications of uninterpreted functions MUL / DIV, of which
+# only a few valid algebraic laws are revealed (UF_AXIOMS). Everything proved that way holds for the reals (the laws
+# are theorems of real arithmetic); multiplication / division by numerals stays interpreted.
+UF = {'on': False}
+MUL = z3.Function('MUL', R, R, R)
+DIV = z3.Function('DIV', R, R, R)
+
+
+def _is_num(t):
+    return z3.is_rational_value(t) or z3.is_int_value(t) or z3.is_algebraic_value(t)
+
+
+def uf_axioms():
+    """quantified forms (E-matching, none of them generates new MUL / DIV applications); the ground instances for the
+    applications that occur in an obligation are added by pv/ufarith.py"""
+    a, L, d = z3.Reals('a!u L!u d!u')
+    return [z3.ForAll([a], z3.And(MUL(a, 0) == 0, MUL(0, a) == 0)),
+            z3.ForAll([a, L], z3.Implies(L != 0, DIV(MUL(a, L), L) == a), patterns=[DIV(MUL(a, L), L)]),
+            z3.ForAll([d], z3.Implies(d != 0, DIV(0, d) == 0))]
+
 
 def arith(op, a, b):
     """+ - * / on scalars (python exact numbers, z3 Int/Real, NF). `/` is true division."""
@@ -232,6 +253,8 @@ def arith(op, a, b):
             if tb == 0:
                 return wrap(z3.RealVal(0), False)
             return wrap(ra / rb, fin)
+        if UF['on'] and not _is_num(rb):
+            return wrap(DIV(ra, rb), band(fin, rb != 0))
         return wrap(ra / rb, band(fin, rb != 0))
     if is_concrete(ta) and is_concrete(tb):
         r = _OPS[op](ta, tb)
@@ -239,7 +262,10 @@ def arith(op, a, b):
             r = int(r)
         return wrap(r, fin)
     if isrealish(ta) or isrealish(tb):
+        conc = is_concrete(ta) or is_concrete(tb)
         ta, tb = toR(ta), toR(tb)
+        if op == '*' and UF['on'] and not conc and not _is_num(ta) and not _is_num(tb):
+            return wrap(MUL(ta, tb), fin)
     else:
         ta, tb = toI(ta), toI(tb)
     return wrap(_OPS[op](ta, tb), fin)
